@@ -236,13 +236,14 @@ def _gen_get_properties_func(clz: type[ASTNode], props: Mapping[Field, FieldType
             body += f"{_IND*2}yield self.origin, _fld_{f.name}\n"
             return
 
+        conds = []
         if not f.compare:
-            body += f"{_IND}if not skip_non_compare:\n"
-            body += f"{_IND*2}yield self.{f.name}, _fld_{f.name}\n"
-            return
-
+            conds.append("not skip_non_compare")
         if not f.init:
-            body += f"{_IND}if not skip_non_init:\n"
+            conds.append("not skip_non_init")
+
+        if conds:
+            body += f"{_IND}if {' and '.join(conds)}:\n"
             body += f"{_IND*2}yield self.{f.name}, _fld_{f.name}\n"
             return
 
